@@ -248,7 +248,7 @@ func checkReduction(c C05Case, x tensor.Tensor, n prog.Node, k int) (*Failure, b
 			}
 		}
 		if n.Op == "std" {
-			if v := x.Var(); !(math.Abs(got*got-v) <= 1e-9*math.Max(1, v)) {
+			if v := x.Var(); !(math.Abs(got*got-v) <= 1e-9*math.Max(1, v)) && !(math.IsInf(v, 1) && math.IsInf(got*got, 1)) {
 				return failf("Std()^2 = %v but Var() = %v", got*got, v), false
 			}
 		}
@@ -325,7 +325,7 @@ func checkReduction(c C05Case, x tensor.Tensor, n prog.Node, k int) (*Failure, b
 		// the Along form of a rank-1 tensor is the whole-tensor statistic
 		s := scalarOf(stat)
 		_, tol := statOfFibre(stat, l.Vals)
-		if !(math.Abs(yv[0]-s) <= 2*tol) {
+		if !(math.Abs(yv[0]-s) <= 2*tol) && !lib.SameNum(yv[0], s) {
 			return failf("%s(0) of a rank-1 tensor = %v but %s() = %v", n.Op, yv[0], stat, s), false
 		}
 	}
